@@ -514,6 +514,9 @@ func splitReturnBlock(fn *ssa.Function, t *ssa.BasicBlock) {
 			}
 		}
 	}
+	if len(phis) == 0 {
+		return // one `return x` reached from several places is left as the source has it
+	}
 	// the phis must not be used anywhere else
 	for _, b := range fn.Blocks {
 		if b == t {
@@ -558,6 +561,7 @@ func splitReturnBlock(fn *ssa.Function, t *ssa.BasicBlock) {
 		fn.Blocks = append(fn.Blocks, nb)
 	}
 	t.Preds = nil
+	dropBlock(fn, t)
 }
 
 // removePred deletes pred p (and the matching phi operands) from b.
